@@ -15,6 +15,8 @@ dict (kind + parameters); `oracle(spec)` returns an object with
 """
 import math
 
+import os
+
 import numpy as np
 from scipy.optimize import nnls
 from scipy.spatial import ConvexHull
@@ -606,6 +608,9 @@ def describe(spec):
     return out
 
 
+STRICT_L = bool(os.environ.get("VERIF_STRICT_L"))
+
+
 def scene_L(oracles, extra_points=()):
     """L = max(1, largest feature size, largest centre distance, largest centre norm)."""
     L = 1.0
@@ -613,7 +618,8 @@ def scene_L(oracles, extra_points=()):
     for o in oracles:
         L = max(L, o.scale())
     for i, c in enumerate(cs):
-        L = max(L, float(np.linalg.norm(c)))
+        if not STRICT_L:
+            L = max(L, float(np.linalg.norm(c)))
         for c2 in cs[i + 1:]:
             L = max(L, float(np.linalg.norm(c - c2)))
     for p in extra_points:
